@@ -118,6 +118,7 @@ def gen_common_opts(rng, objs, allow_transpose=True):
     o["df"] = rng.choice([None, None, None, "same", "shuffled", "modified", "subset", "plain"])
     o["df_seed"] = rng.randrange(1000)
     o["transpose"] = allow_transpose and rng.random() < 0.5
+    o["pre_plot"] = allow_transpose and rng.random() < 0.25
     o["cbar"] = rng.random() < 0.25
     o["cmap"] = rng.choice(["magma", "viridis", "listed"])
     # explicit limits are chosen relative to the objectives that will actually be DRAWN (the "modified" frame carries a custom metric
@@ -186,6 +187,8 @@ def gen_cvt(rng, tier):
     ndim = rng.choice([1, 2, 2])
     n = rng.choice([1, 2, 3, 4, 5, 6, 8, 11] + ([20, 40] if tier == "thorough" else []))
     ranges = gen_ranges(rng, ndim)
+    if ndim == 2 and rng.random() < 0.3:
+        ranges[1] = list(ranges[0])      # both measures share one range (swapping the axes leaves the bounds unchanged)
     cents = gen_centroids(rng, n, ranges)
     fill, chosen = pick_fill(rng, n)
     objs = gen_objectives(rng, len(chosen))
@@ -400,6 +403,15 @@ def the_cmap(name):
 def call_plot(case, archive, df, ax):
     from ribs import visualize as V
     o = case["opts"]
+    if o.get("pre_plot") and case["kind"] in ("grid", "cvt", "sliding", "proximity") and ax is not None:
+        # the same archive was drawn before, with the axes the other way round: an earlier picture must not influence this one
+        import matplotlib.pyplot as plt
+        f0, a0 = plt.subplots(figsize=(2, 2))
+        try:
+            case0 = {"kind": case["kind"], "opts": dict(o, transpose=not o["transpose"], pre_plot=False, cbar=False)}
+            call_plot(case0, archive, df, a0)
+        finally:
+            plt.close(f0)
     kw = {"df": df, "cmap": the_cmap(o["cmap"]), "vmin": o["vmin"], "vmax": o["vmax"], "cbar": "auto" if o["cbar"] else None}
     k = case["kind"]
     if k == "grid":
